@@ -141,6 +141,17 @@ func dDepth(v ssa.Value, depth int, seen map[ssa.Value]bool) string {
 		return x.Op.String() + rec(x.X)
 	case *ssa.FieldAddr:
 		st := x.X.Type().Underlying().(*types.Pointer).Elem().Underlying().(*types.Struct)
+		// a struct-valued local (spilled parameter, `v, ok := m[k]` copy) with a single whole-value
+		// store is rendered by the value it was initialised from
+		switch x.X.(type) {
+		case *ssa.Alloc, *ssa.FreeVar:
+			if sv := singleStore(x.X); sv != nil && !seen[x] {
+				seen[x] = true
+				r := rec(sv)
+				delete(seen, x)
+				return "&" + r + "." + st.Field(x.Field).Name()
+			}
+		}
 		return "&" + stripAmp(rec(x.X)) + "." + st.Field(x.Field).Name()
 	case *ssa.Field:
 		st := x.X.Type().Underlying().(*types.Struct)
